@@ -43,6 +43,81 @@ K10_PAIRS = [("g", "g_q", "q", None), ("g", "g_dot", "t", None), ("g_dot", "g_do
              ("g_dot", "W_g", "u", None), ("W_g", "Wla_g_q", "q", "la_g")]
 
 
+GLUE = ("r_OJ1", "r_OJ2", "A_IJ1", "A_IJ2", "v_J1", "v_J2", "Omega1", "Omega2")
+
+
+def defining_configuration(ctx):
+    """Index-kind typing of the coordinate vectors used in assembler_callback: the glue lambdas created by auxiliary_functions
+    slice their argument at nq1 = len(local_qDOF1), i.e. they take the concatenation of the subsystems' LOCAL coordinates (for a rod:
+    the coordinates of the element containing xi).  A vector built from the subsystems' FULL q0 has another layout whenever a
+    subsystem has more coordinates than the local set (rods with more than one element)."""
+    rep = ctx.rep
+    n = 0
+    for ci in ctx.model.all_classes():
+        if not ci.rel.startswith("cardillo/constraints/"):
+            continue
+        fn = ci.methods.get("assembler_callback")
+        if fn is None:
+            continue
+        C = f"{ci.rel}:{ci.qual}.assembler_callback"
+        loc = {}
+        for st in ast.walk(fn):
+            if isinstance(st, ast.Assign) and len(st.targets) == 1 and isinstance(st.targets[0], ast.Name):
+                loc.setdefault(st.targets[0].id, []).append(st.value)
+
+        def kind(e, depth=0):
+            """'local' | 'full' | None"""
+            if depth > 6:
+                return None
+            d = dotted(e)
+            if d == "self.q0":
+                return "local"
+            if isinstance(e, ast.Subscript):
+                b = dotted(e.value) or ""
+                if b.endswith(".q0") and "subsystem" in b:
+                    idx = norm_src(e.slice)
+                    return "local" if idx.startswith("local_qDOF") else None
+            if d and d.endswith(".q0") and "subsystem" in d:
+                return "full"
+            if isinstance(e, ast.Name) and e.id in loc and len(loc[e.id]) == 1:
+                return kind(loc[e.id][0], depth + 1)
+            if isinstance(e, ast.Call) and (dotted(e.func) or "").split(".")[-1] in ("hstack", "concatenate") and e.args and isinstance(e.args[0], (ast.Tuple, ast.List)):
+                ks = [kind(x, depth + 1) for x in e.args[0].elts]
+                if any(k == "full" for k in ks):
+                    return "full"
+                if ks and all(k == "local" for k in ks):
+                    return "local"
+            return None
+
+        for call in [w for w in ast.walk(fn) if isinstance(w, ast.Call)]:
+            f = call.func
+            # the object's own glue lambdas: self.r_OJ1(t, q) ...
+            if isinstance(f, ast.Attribute) and dotted(f.value) == "self" and f.attr in GLUE and len(call.args) >= 2:
+                k = kind(call.args[1])
+                n += 1
+                if k == "full":
+                    rep.bad("C05.R11", C, call, f"`self.{f.attr}` slices its argument at the length of the subsystems' LOCAL coordinate sets, but it is called with "
+                            f"`{norm_src(call.args[1])}`, built from the subsystems' FULL q0: for a rod with more than one element the joint is defined from the wrong "
+                            "coordinates (distance / frames are wrong or NaN, g(t0, q0) != 0)", f"{ci.rel}:{call.lineno}")
+                elif k == "local":
+                    rep.ok("C05.R11", C, f"{norm_src(call)[:80]}: local coordinates")
+                else:
+                    rep.ok("C05.R11", C, f"{norm_src(call)[:80]}: coordinate kind not classified (no verdict)", verdict="unknown", trivial=True)
+            # subsystem point protocol evaluated at the initial state: subsystemK.r_OP(t0, q, xi)
+            elif isinstance(f, ast.Attribute) and (dotted(f.value) or "").startswith("self.subsystem") and f.attr in ("r_OP", "A_IB") and len(call.args) >= 2:
+                k = kind(call.args[1])
+                n += 1
+                if k == "full":
+                    rep.bad("C05.R11", C, call, f"`{norm_src(f)}` takes the coordinates of the element containing xi (local_qDOF_P) but gets the subsystem's full q0",
+                            f"{ci.rel}:{call.lineno}")
+                elif k == "local":
+                    rep.ok("C05.R11", C, f"{norm_src(call)[:80]}: local coordinates")
+                else:
+                    rep.ok("C05.R11", C, f"{norm_src(call)[:80]}: coordinate kind not classified (no verdict)", verdict="unknown", trivial=True)
+    if n < 4:
+        raise AnalysisError(f"C05.R11: only {n} evaluations at the defining configuration found")
+
+
 def run(ctx):
     rep = ctx.rep
     rep.rule("C05.R1", "chain-rule coverage of constraint derivatives and time chain (K5)", 20)
@@ -50,6 +125,8 @@ def run(ctx):
     rep.rule("C05.R3", "mirror symmetry of subsystem-1 / subsystem-2 glue", 20)
     rep.rule("C05.R4", "subsystem protocol of the glue lambdas", 15)
     rep.rule("C05.R7", "two-body block typing: a block selecting body c's coordinates / velocities holds only body c's derivative quantities (K9)", 40)
+    rep.rule("C05.R11", "the configuration in which a joint is defined is evaluated on the joint's LOCAL coordinates (subsystem.q0[local_qDOF] / self.q0), the kind its glue lambdas slice", 4)
+    defining_configuration(ctx)
     rep.rule("C05.R10", "per block row: sign of the body-2 block relative to the body-1 block (orientation rows; cross products in canonical order; frozen table)", 8)
     rep.rule("C05.R8", "relative polarity of body-2 vs body-1 terms agrees between the constraint and its derivatives (K9)", 25)
     rep.rule("C05.R9", "all point-protocol calls of one body's joint glue name the same material point (xi, B_r_CP)", 4)
@@ -231,6 +308,10 @@ MUTANTS += [
          new="                g_dot_q[3 + i, :nq1] = (\n                    n @ Omega1_q1 + cross3(e_b, Omega21) @ A_IJ1_q1[:, a]\n                )\n                g_dot_q[3 + i, nq1:] = (\n                    -n @ Omega2_q2 + cross3(e_a, Omega21) @ A_IJ2_q2[:, b]\n                )", expect="C05.R10"),
     dict(id="c05-r9-2", what="g_q orientation rows: body-2 block negated", file=JB,
          old="                g_q[3 + i, nq1:] = A_IJ1[:, a] @ A_IJ2_q2[:, b]", new="                g_q[3 + i, nq1:] = -A_IJ1[:, a] @ A_IJ2_q2[:, b]", expect=["C05.R10", "C05.R8"]),
+]
+MUTANTS += [
+    dict(id="c05-r11-orig", canary=True, what="FixedDistance defined from the subsystems' full q0 (original defect)", file="cardillo/constraints/fixed_distance.py",
+         old="        q0 = self.q0\n", new="        q0 = np.hstack((self.subsystem1.q0, self.subsystem2.q0))\n", expect="C05.R11"),
 ]
 NEUTRAL = [
     dict(id="c05-n-r9", canary=True, what="g_dot_q rewritten with cross3 and the correct argument order", file=JB,
